@@ -20,8 +20,8 @@
  * on what ufw returns.
  *
  * Second family (gather lists, see family_seglists below): a running checksum
- * continued over 1..3 parts of which any may be empty, spelled with a valid or
- * with a null pointer.
+ * continued over 1..3 parts of which any may be empty (valid pointer: judged;
+ * null pointer: observed only).
  */
 #include "mc.h"
 
@@ -219,16 +219,19 @@ history_case(const enum fn *hist, int ncalls, enum content ct, int li, int ii)
  *
  * "checksumming a concatenation equals continuing the checksum of the first
  * part over the second" -- for every octet sequence, the empty one included.
- * An absent part of a gather list is spelled either {valid pointer, 0} or
- * {NULL, 0}; both denote the empty sequence, and continuing over it has to
- * return the running value.  Every list of 1..3 parts over {data, empty with a
- * valid pointer, empty with a null pointer} is run through the two continuing
- * functions, in a forked child like the histories above.
+ * An absent part of a gather list is spelled {valid pointer, 0}: that is the
+ * empty sequence, and continuing over it has to return the running value.
+ * The spelling {NULL, 0} is run too but only observed (audit 6): a null pointer
+ * designates no octet sequence at all, the statement has no sentence about it,
+ * and "a NULL buffer is an argument error, the initial value is returned"
+ * (zlib's convention) is ordinary.  Every list of 1..3 parts over {data, empty
+ * with a valid pointer, empty with a null pointer} is run through the two
+ * continuing functions, in a forked child like the histories above; every call
+ * is judged from the running value it was given, so the parts behind a null
+ * part are still decided.
  *
  * A child that does not come back from a list with a null part is not judged
- * (class segments-null-trapped): whether an implementation may form `NULL + 0`
- * on its way to reading nothing is between it and the sanitizer, not a sentence
- * of the statement.  A value that comes back has to be the right one. */
+ * either (class segments-null-trapped). */
 
 enum seg { SG_DATA, SG_EMPTY, SG_NULL, NSG };
 static const char sgletter[NSG] = { 'D', 'E', 'N' };
@@ -341,18 +344,27 @@ seglist_case(enum fn fn, const enum seg *kind, int nparts, enum content ct, int 
         size_t at = 0;
         uint16_t before = l.init;
         for (int k = 0; k < nparts; ++k) {
+            /* every call is judged from the running value it was really given
+             * (what the previous call returned), so that a part that is only
+             * observed does not decide the parts behind it */
+            const uint16_t want = ref_buf(before, img + 2 * at, 2 * l.len[k]);
             at += l.len[k];
-            const uint16_t want = ref_buf(l.init, img, 2 * at);
             mc_log("part %d (%c, %zu words): running value %04x -> %04x, reference %04x", k + 1, letters[k], l.len[k], before,
                    results[k], want);
             if (results[k] != want) {
-                mc_fail("C16/concatenation-continues",
-                        "gather list %s through %s from 0x%04x: after part %d (%s, %zu octets) the running value 0x%04x became "
-                        "0x%04x, CRC-16/ARC of the %zu octets so far is 0x%04x",
-                        letters, fnname[fn], l.init, k + 1,
-                        kind[k] == SG_DATA ? "data" : kind[k] == SG_EMPTY ? "empty, valid pointer" : "empty, null pointer",
-                        2 * l.len[k], before, results[k], 2 * at, want);
-                break;
+                if (kind[k] == SG_NULL) {
+                    /* observation, not a verdict (audit 6): a null pointer
+                     * designates no octet sequence, not even the empty one */
+                    mc_log("  null part: the running value was not kept (not judged; e.g. the convention \"a NULL buffer "
+                           "returns the initial value\")");
+                } else {
+                    mc_fail("C16/concatenation-continues",
+                            "gather list %s through %s from 0x%04x: part %d (%s, %zu octets) continued from the running value "
+                            "0x%04x returned 0x%04x, CRC-16/ARC continued over these octets is 0x%04x",
+                            letters, fnname[fn], l.init, k + 1, kind[k] == SG_DATA ? "data" : "empty, valid pointer",
+                            2 * l.len[k], before, results[k], want);
+                    break;
+                }
             }
             before = results[k];
         }
@@ -408,7 +420,7 @@ main(int argc, char **argv)
     family_seglists();
     mc_finish(true, "all 84 histories of 1..3 calls over the 4 entry points, each in a freshly forked process that has "
                     "made no checksum call before; x 3 contents x word counts {0,1,2,7,9} x 3 initial values; all 39 gather "
-                    "lists of 1..3 parts over {data, empty with a valid pointer, empty with a null pointer} continued through "
-                    "ufw_crc16_arc and ufw_crc16_arc_u16 x 2 contents x 3 initial values");
+                    "lists of 1..3 parts over {data, empty with a valid pointer, empty with a null pointer (observed, not judged)} "
+                    "continued through ufw_crc16_arc and ufw_crc16_arc_u16 x 2 contents x 3 initial values");
     return 0;
 }
